@@ -239,6 +239,7 @@ PROPS = {
     },
     "C07": {
         "level": "translation_validation",
+        "coverage_from_counters": {"programs": ["native:programs"], "disagreements_checked": ["native:instances_showing_known_finding_F8"]},
         "assumptions": [
             "the naming reference in checks/src/bin/c07_macro_programs.rs is the oracle; like the documentation it takes the Inflector crate's to_pascal_case/to_snake_case/to_kebab_case as the definition of inflection",
             "generated programs avoid three shapes the pinned macro does not compile (ignored fields inside enum struct variants, two flatten prefixes with the same text in one container, by-value children inside subfield structs); a generated program that does not compile is INCONCLUSIVE, never a verdict on naming",
